@@ -341,9 +341,18 @@ func (i *Info) ChannelCounts() map[string]uint64 {
 // CanReadMessagesUsingIndex returns true if messages can be read from this file efficiently using
 // the index.
 func (i *Info) CanReadMessagesUsingIndex() bool {
-	// If there are chunk indexes, we can read messages using the index.
+	// If there are chunk indexes, we can read messages using the index - unless they list
+	// channels while the summary repeats no channel record at all: the summary is the indexed
+	// iterator's only source of channel knowledge.
 	// if there are none, but the statistics indicate that there are messages, then we know
 	// that a read using the indexed message iterator will still yield the correct set of messages.
+	if len(i.ChunkIndexes) > 0 && len(i.Channels) == 0 {
+		for _, idx := range i.ChunkIndexes {
+			if len(idx.MessageIndexOffsets) > 0 {
+				return false
+			}
+		}
+	}
 	return len(i.ChunkIndexes) > 0 || (i.Statistics != nil && i.Statistics.MessageCount == 0)
 }
 
